@@ -64,6 +64,9 @@ type FnVerifier struct {
 	rootVars   map[string]TV
 	pending    []*pendingObl
 	ceils      map[string]Term
+	rec        map[string]bool // when non-nil, arr()/ghost() record the arrays they are asked for
+	opqDeps    map[string][]string
+	opqDone    map[string]bool
 }
 
 // frame is the execution of one function body (root or inlined).
@@ -146,6 +149,9 @@ func (v *FnVerifier) arr(st *State, name string, s Sort) Term {
 		panic(fmt.Sprintf("array %s used at sorts %s and %s", name, old, s))
 	}
 	v.arrSort[name] = s
+	if v.rec != nil {
+		v.rec[name] = true
+	}
 	if t, ok := st.arr[name]; ok {
 		return t
 	}
@@ -196,10 +202,13 @@ func (v *FnVerifier) ghost(st *State, name string) (Term, bool) {
 	}
 	_, s := v.eng.resolveType(v.fc.Pkg, g.Type)
 	key := "G:" + name
+	v.arrSort[key] = s
+	if v.rec != nil {
+		v.rec[key] = true
+	}
 	if t, ok := st.arr[key]; ok {
 		return t, true
 	}
-	v.arrSort[key] = s
 	return v.ctx.Const(key+"!0", s), true
 }
 
@@ -535,7 +544,22 @@ func (f *frame) safety(class string, cond Term, pos token.Pos) {
 	v := f.v
 	v.safe[class] = append(v.safe[class], Implies(f.reach, cond))
 	v.safeAt[class] = append(v.safeAt[class], v.pos(pos))
-	f.reach = v.ctx.Define("reach", And(f.reach, cond))
+	f.reach = v.narrow(f.reach, cond)
+}
+
+// narrow: the reachability condition after `cond` is known to hold. Quantified
+// conditions are attached one-way (reach' => reach /\ cond) so that no quantifier
+// occurs in negative polarity.
+func (v *FnVerifier) narrow(reach, cond Term) Term {
+	if cond.S == "true" {
+		return reach
+	}
+	if strings.Contains(cond.S, "(forall ") || strings.Contains(cond.S, "(exists ") {
+		r2 := v.ctx.Fresh("reach", SBool)
+		v.ctx.Assert(Implies(r2, And(reach, cond)))
+		return r2
+	}
+	return v.ctx.Define("reach", And(reach, cond))
 }
 
 // ------------------------------------------------------------ CFG helpers
